@@ -206,6 +206,18 @@ func c13Order(call apiCall, dest string) (sig, detail string) {
 	if lastW < 0 {
 		return "?no-write-to-staging-descriptor", ""
 	}
+	// A flush that FAILED (with anything but EINTR) after the last write
+	// reports the writeback error once and may leave the pages marked clean: a
+	// later successful fsync then proves nothing unless the data was written
+	// again (which would make that write the last write). So: no failed
+	// non-EINTR flush of the descriptor between its last write and the
+	// publishing rename, and a successful one.
+	for i := lastW + 1; i < pub; i++ {
+		e := call.Sys[i]
+		if (e.Name == "fsync" || e.Name == "fdatasync") && e.firstIntArg() == fd && !e.ok() && e.Ret != "" && !strings.HasPrefix(e.Ret, "?") && !strings.Contains(e.Ret, "EINTR") {
+			return "order-rename-after-failed-fsync-without-rewrite", fmt.Sprintf("%s(%d) failed (%s) after the last write to the staging descriptor, the data was not written again, and the call went on to publish the name with %s: a later successful flush says nothing about the pages of the failed one", e.Name, fd, e.Ret, call.Sys[pub].Name)
+		}
+	}
 	for i := lastW + 1; i < pub; i++ {
 		e := call.Sys[i]
 		if e.ok() && (((e.Name == "fsync" || e.Name == "fdatasync") && e.firstIntArg() == fd) || e.Name == "sync" || e.Name == "syncfs") {
@@ -471,6 +483,9 @@ func c13CrashAndFaults(r *core.Run) (missing []string) {
 							r.Count("faults_retried_order_flush_before_publish", 1)
 						case strings.HasPrefix(osig, "?"):
 							r.Inconclusive("order-after-retry-" + osig[1:])
+						case strings.HasPrefix(osig, "order-rename-after-failed-fsync"):
+							u.viol = append(u.viol, pendingViol{osig,
+								fmt.Sprintf("AtomicCreate(d,f,%s) (setup %s) reported success after %d %s failure(s) with %s: %s", describe(data, true), s.name(), u.Fails, u.Sys, u.Kind, odetail), detail})
 						default:
 							u.viol = append(u.viol, pendingViol{"fault-retried-" + u.Sys + "-" + osig,
 								fmt.Sprintf("AtomicCreate re-issued a %s that had failed with %s and reported success, but %s", u.Sys, u.Kind, odetail), detail})
@@ -695,7 +710,7 @@ func runC13(r *core.Run) (bool, string) {
 		"EVERY one of them is then replaced by a SIGKILL before it executes (exhaustive over the file-system syscalls of the call) and d/f must be exactly its previous state or exactly data; " +
 		"then, in copies of the SAME leftover tree, a complete AtomicCreate(d,f,data2) with data2 shorter and (separately) longer than data must leave exactly data2. " +
 		"The interrupted call is the 1st, 2nd or 3rd AtomicCreate of its process (complete calls for another name come first), and every recovery runs in three process identities: a different pid (in-process), and — strace and child started in a fresh PID namespace, where the child always gets the same pid — a process with the SAME pid as the interrupted one making the same number of calls before (same call index) or one more (other call index), each with data2 shorter than, as long as and longer than data; the result must be exactly data2 (the oracle never looks at staging names; recovery_identity_*_created_over_a_preexisting_leftover_* count, from the recovery run's own strace log, the runs whose call opened with O_CREAT a path that the interrupted call had left behind). The same same-pid recoveries follow every partial-write scenario. " +
-		"(b) fault: every open/write/fsync/rename-family syscall of the call fails with EIO, ENOSPC, EINTR (write family: also EAGAIN), each for exactly that occurrence, for occurrences K..K+1, K..K+2 and for every occurrence from K on (exhaustive): the call must not report ok unless it re-issued the syscall successfully — and then d/f must be exactly data and the recorded order must still show a successful flush of the staging descriptor after its last write and before the publishing rename; d/f must be old or new, and the recovery runs follow (the same-pid ones after the single-occurrence EIO/ENOSPC faults). " +
+		"(b) fault: every open/write/fsync/rename-family syscall of the call fails with EIO, ENOSPC, EINTR (write family: also EAGAIN), each for exactly that occurrence, for occurrences K..K+1, K..K+2 and for every occurrence from K on (exhaustive): the call must not report ok unless it re-issued the syscall successfully — and then d/f must be exactly data and the recorded order must still show a successful flush of the staging descriptor after its last write and before the publishing rename, and NO flush of it that failed with anything but EINTR after that last write (a failed fsync may leave the pages clean; re-writing the data and flushing successfully is fine); d/f must be old or new, and the recovery runs follow (the same-pid ones after the single-occurrence EIO/ENOSPC faults). " +
 		"(c) order, on each recorded successful call with non-empty data: a successful fsync/fdatasync of the staging descriptor (the descriptor returned by the open of the path later renamed onto d/f) after its last write and before the rename; writing d/f in place is a violation. " +
 		"(d) concurrency in a child process (library panics recovered per call; a fatal error kills only the child): 1-4 creators x 1-4 readers (Open+ReadAt of the whole file, List every 4th iteration) on one file, and creator pairs on (same dir, different names), (different dirs, same name), (same dir, same name) started together each round, on DirFs and MemFs; " +
 		"payloads are a 4-byte version token repeated to a version-specific length: a reader/final check must see exactly one complete written version. " +
